@@ -43,6 +43,21 @@ claim("C08", "sched",
       "virtual clock; interval/timeout 1.0; <=4 elements; n in {1,2,3}; deviations <=1 quick, <=2 thorough (sync consumer)",
       "DESIGN.md §3 C08")
 
+claim("C02", "sched",
+      "bounded exhaustive schedule enumeration (ICB) of lossless asynchronous pipelines on a virtual loop, three consumer kinds",
+      "For every pipeline (one or two of buffer/delay/rate_limit/map_async/timed_window/partition(timeout), zip/union of two branches) x consumer kind "
+      "(future, native coroutine object, gen.coroutine) every schedule of emits, loop iterations, consumer/mapped-coroutine completions in any order and timers "
+      "within the deviation bound is executed on the real nodes; what the sink received, flattened, must be a prefix of the producer sequence at every step and equal to it after the closing phase; no emit raises, no background error.",
+      "virtual event loop; <=4 elements, 1-2 producers, deviations <=1 (quick) / <=2 (thorough, single nodes); mapped function is identity behind a harness gate",
+      "DESIGN.md §3 C02")
+
+claim("C03", "sched",
+      "bounded exhaustive schedule enumeration (ICB): emit completion vs consumer completion, occupancy bounds, liveness after closing",
+      "Plain pass-through nodes alone and behind buffer, buffer(n)/zip(maxsize=n)/map_async(n) for n in 1..3, 2- and 3-input zip, awaiting and bursting producers: "
+      "(a) evaluated at the action in which an emit awaitable completes, (b) accepted-but-not-handed-on <= n at every step, (c) no pending emit / queued element after all consumers completed.",
+      "asynchronous mode on the virtual loop (threaded mode: see level text of later revisions); n<=3; deviations <=1 quick / <=2 thorough; map_async bound n+1 as pinned by test_map_async",
+      "DESIGN.md §3 C03")
+
 ALL = ["C%02d" % i for i in range(1, 21)]
 
 
